@@ -7,10 +7,10 @@ import (
 	"reflect"
 	"regexp"
 	"strings"
+	"time"
 
 	"github.com/DataDog/datadog-agent/pkg/obfuscate"
 	"github.com/GuanceCloud/grok"
-	"github.com/GuanceCloud/platypus/pkg/inimpl/guancecloud/funcs"
 	"github.com/antchfx/xmlquery"
 )
 
@@ -19,7 +19,7 @@ func init() { register("catalog-check", catalogCheck) }
 type patStore struct{ m map[string]*grok.GrokPattern }
 
 func (d patStore) GetPattern(n string) (*grok.GrokPattern, bool) { v, ok := d.m[n]; return v, ok }
-func (d patStore) SetPattern(n string, p *grok.GrokPattern)     { d.m[n] = p }
+func (d patStore) SetPattern(n string, p *grok.GrokPattern)      { d.m[n] = p }
 
 // catalog-check <spec/catalogs.json>: every catalog entry against the engine it stands for.
 // A mismatch means the CATALOG is wrong (or the engine changed): a framework error, never a property verdict.
@@ -42,6 +42,10 @@ func catalogCheck(args []string) (any, error) {
 			S, Tz string
 			Ok    bool
 			Ns    string
+			Chk   *struct {
+				Civil []int  `json:"civil"`
+				Zone  string `json:"zone"`
+			} `json:"chk"`
 		} `json:"time"`
 		XML []struct {
 			Doc, Xp string
@@ -116,11 +120,22 @@ func catalogCheck(args []string) (any, error) {
 			}
 		}
 	}
+	// time: the epoch of an entry is re-computed with the Go standard library from the civil time and zone the entry states
+	// (never with the code under test: pkg/.../funcs/handle.go is part of what C12 is about)
 	for _, t := range c.Time {
 		n++
-		ns, err := funcs.TimestampHandle(t.S, t.Tz)
-		if (err == nil) != t.Ok || (t.Ok && fmt.Sprint(ns) != t.Ns) {
-			bad = append(bad, fmt.Sprintf("time %q tz=%q: engine %d err=%v, catalog ok=%v ns=%s", t.S, t.Tz, ns, err, t.Ok, t.Ns))
+		if t.Chk == nil {
+			continue
+		}
+		loc, err := time.LoadLocation(t.Chk.Zone)
+		if err != nil || len(t.Chk.Civil) != 6 {
+			bad = append(bad, fmt.Sprintf("time %q tz=%q: zone %q / civil time unusable: %v", t.S, t.Tz, t.Chk.Zone, err))
+			continue
+		}
+		cv := t.Chk.Civil
+		ns := time.Date(cv[0], time.Month(cv[1]), cv[2], cv[3], cv[4], cv[5], 0, loc).UnixNano()
+		if !t.Ok || fmt.Sprint(ns) != t.Ns {
+			bad = append(bad, fmt.Sprintf("time %q tz=%q: standard library says %d, catalog ok=%v ns=%s", t.S, t.Tz, ns, t.Ok, t.Ns))
 		}
 	}
 	for _, x := range c.XML {
@@ -135,13 +150,29 @@ func catalogCheck(args []string) (any, error) {
 			bad = append(bad, fmt.Sprintf("xml %q %q: engine ok=%v %q, catalog ok=%v %q", x.Doc, x.Xp, ok, got, x.Ok, x.Out))
 		}
 	}
+	stdLayout := map[string]string{"ANSIC": time.ANSIC, "UnixDate": time.UnixDate, "RubyDate": time.RubyDate, "RFC822": time.RFC822,
+		"RFC822Z": time.RFC822Z, "RFC850": time.RFC850, "RFC1123": time.RFC1123, "RFC1123Z": time.RFC1123Z, "RFC3339": time.RFC3339,
+		"RFC3339Nano": time.RFC3339Nano, "Kitchen": time.Kitchen, "Stamp": time.Stamp, "StampMilli": time.StampMilli,
+		"StampMicro": time.StampMicro, "StampNano": time.StampNano}
+	unit := map[string]int64{"s": 1e9, "ms": 1e6, "us": 1e3, "ns": 1}
 	for _, d := range c.Datetime {
 		n++
 		var v int64
 		fmt.Sscan(d.V, &v)
-		got, err := funcs.DateFormatHandle(v, d.Prec, d.Fmt)
-		if (err == nil) != d.Ok || got != d.Out {
-			bad = append(bad, fmt.Sprintf("datetime %v: engine %q err=%v, catalog ok=%v %q", d, got, err, d.Ok, d.Out))
+		lay, okL := stdLayout[d.Fmt]
+		u, okU := unit[d.Prec]
+		if !d.Ok {
+			if okL && okU {
+				bad = append(bad, fmt.Sprintf("datetime %v: a known layout and precision cannot be a failure entry", d))
+			}
+			continue
+		}
+		if !okL || !okU {
+			bad = append(bad, fmt.Sprintf("datetime %v: unknown layout/precision in an ok entry", d))
+			continue
+		}
+		if got := time.Unix(0, v*u).UTC().Format(lay); got != d.Out {
+			bad = append(bad, fmt.Sprintf("datetime %v: standard library %q, catalog %q", d, got, d.Out))
 		}
 	}
 	o := obfuscate.NewObfuscator(obfuscate.Config{})
